@@ -193,6 +193,8 @@ OBS_RE = re.compile(r"^([RCN])\[([^\]]*)\]=(\S+)$")
 def parse_trace(tr):
     """-> list of (kind, [events], result-string) or None if the trace is not well formed"""
     out = []
+    if tr.strip() == "":
+        return out
     for tok in tr.split(" "):
         m = OBS_RE.match(tok)
         if not m:
